@@ -27,7 +27,7 @@ runs = 5 if tier == "thorough" else 2
 
 def one(i):
     out = tempfile.NamedTemporaryFile(suffix=".json", delete=False).name
-    e = dict(os.environ, VCHECK_BUDGET_S=str(budget), TSAN_OPTIONS="halt_on_error=0 exitcode=66 second_deadlock_stack=1")
+    e = dict(os.environ, VCHECK_BUDGET_S=str(budget), TSAN_OPTIONS="halt_on_error=0 exitcode=66 second_deadlock_stack=1 suppressions=" + os.path.join(ROOT, "tools", "tsan.supp"))
     p = subprocess.run([BIN, target, "--tier", "thorough", "--seed", str(seed * 100 + i), "--shard", f"{i}/{runs}", "--out", out],
                        env=e, stdout=subprocess.PIPE, stderr=subprocess.PIPE, text=True, timeout=budget * 8 + 300)
     inner = None
